@@ -752,3 +752,125 @@ func Wide(r *gen.R, way bool, regime Regime, n int) *H {
 	h.Parents = []PVer{{Version: 1, Visible: true, Sec: T, CS: 55, Refs: refs}}
 	return h
 }
+
+// Skew returns the enumerated clock-skew family: one parent version, one child at nIdx
+// indices with v1 before the parent and n later versions whose instants grow by 10 s per
+// version, except at the given positions (1-based index into the later versions, >= 2), where
+// the version carries an EARLIER instant than its predecessor (clock skew of old editors,
+// imports: valid data). All later versions become updates of the single parent version, so
+// the expected list order (index, time, version) differs from version order there.
+func Skew(way bool, regime Regime, n, nIdx int, inversions []int) *H {
+	h := &H{Way: way, Regime: regime, Eps: 30}
+	T := int64(1400000000)
+	if regime == Stamp {
+		T = 1250000000
+	}
+	ch := Child{Type: osm.TypeNode, Ref: 11}
+	ch.Vers = append(ch.Vers, Ver{Version: 1, Visible: true, Sec: T - 5000, CS: 50, Lat: 1.001, Lon: -1.001})
+	inv := map[int]bool{}
+	for _, p := range inversions {
+		inv[p] = true
+	}
+	for k := 1; k <= n; k++ {
+		sec := T + 1000 + int64(k)*10
+		if inv[k] {
+			sec -= 15 // 5 s before the previous version
+		}
+		ch.Vers = append(ch.Vers, Ver{Version: k + 1, Visible: true, Sec: sec, CS: int64(60 + k), Lat: 1 + float64(k+1)/10000, Lon: -1 - float64(k+1)/10000})
+	}
+	h.Children = []Child{ch}
+	p := PVer{Version: 1, Visible: true, Sec: T, CS: 55}
+	for j := 0; j < nIdx; j++ {
+		p.Refs = append(p.Refs, Ref{Child: 0})
+	}
+	h.Parents = []PVer{p}
+	return h
+}
+
+// Handover returns a history in which child A belongs to parent version q, is dropped by
+// version q+1 and is not visible at q+1 (variant 0/1: deleted in the very commit that wrote
+// q+1; variant 2: deleted in between, which needs IgnoreInconsistency), while child B appears
+// for the first time in q+1; 0-3 further children stay throughout. Few children, so that the
+// library's map iteration visits B right after A in a good share of the runs.
+func Handover(r *gen.R, way bool, regime Regime, variant int) *H {
+	h := &H{Way: way, Regime: regime, Eps: Thresholds[r.Intn(3)]}
+	E := h.Eps
+	if E < 1 {
+		E = 1
+	}
+	T := int64(1400000000) + r.Int64Range(0, 1e7)
+	if regime == Stamp {
+		T = 1250000000 + r.Int64Range(0, 1e7)
+	}
+	np := r.Range(2, 4)
+	q := r.Intn(np - 1)
+	for i := 0; i < np; i++ {
+		h.Parents = append(h.Parents, PVer{Version: i + 1, Visible: true, Sec: T + int64(i)*(100000+20*E), CS: int64(500 + i)})
+	}
+	typ := func() osm.Type {
+		if way {
+			return osm.TypeNode
+		}
+		return []osm.Type{osm.TypeNode, osm.TypeWay, osm.TypeRelation}[r.Intn(3)]
+	}
+	mk := func(created int64) int {
+		c := len(h.Children)
+		ch := Child{Type: typ(), Ref: int64(10 + c)}
+		ch.Vers = []Ver{{Version: 1, Visible: true, Sec: created, CS: int64(100 + c)}}
+		h.Children = append(h.Children, ch)
+		return c
+	}
+	addVer := func(c int, sec int64, vis bool, cs int64) {
+		ch := &h.Children[c]
+		ch.Vers = append(ch.Vers, Ver{Version: ch.Vers[len(ch.Vers)-1].Version + 1, Visible: vis, Sec: sec, CS: cs})
+	}
+	tq, tn := h.Parents[q].Sec, h.Parents[q+1].Sec
+	a := mk(T - 50000 - 3*E)
+	if r.Chance(0.5) {
+		addVer(a, tq+3*E+r.Int64Range(10, 1000), true, 900) // an ordinary edit while it is a member
+	}
+	switch variant {
+	case 2: // deleted well between the two parent versions
+		addVer(a, tq+40000+r.Int64Range(0, 1000), false, 901)
+		h.IgnoreInc = true
+	default: // deleted together with the edit that drops it from the parent
+		addVer(a, tn, false, h.Parents[q+1].CS)
+		h.IgnoreInc = variant == 1
+	}
+	b := mk(T - 40000 - 3*E)
+	if r.Chance(0.4) {
+		addVer(b, tn+3*E+r.Int64Range(10, 1000), true, 902)
+	}
+	var stay []int
+	for k := r.Intn(4); k > 0; k-- {
+		c := mk(T - 60000 - 3*E - int64(k))
+		if r.Chance(0.5) {
+			addVer(c, T+3*E+r.Int64Range(10, 90000), true, int64(910+k))
+		}
+		stay = append(stay, c)
+	}
+	for i := range h.Parents {
+		var refs []Ref
+		for _, c := range stay {
+			refs = append(refs, Ref{Child: c})
+		}
+		if i <= q {
+			refs = append(refs, Ref{Child: a})
+		}
+		if i > q {
+			refs = append(refs, Ref{Child: b})
+		}
+		r.Shuffle(len(refs), func(x, y int) { refs[x], refs[y] = refs[y], refs[x] })
+		h.Parents[i].Refs = refs
+	}
+	for c := range h.Children {
+		for k := range h.Children[c].Vers {
+			v := &h.Children[c].Vers[k]
+			if h.Children[c].Type == osm.TypeNode {
+				v.Lat = float64(c+1) + float64(v.Version)/1000
+				v.Lon = -float64(c+1) - float64(v.Version)/1000
+			}
+		}
+	}
+	return h
+}
